@@ -442,6 +442,19 @@ def lstr(s):
     return "".join(out)
 
 
+def lchars(s):
+    """A Lean `List Char` literal (core String functions are very slow in the kernel: ~0.4 s per `"...".toList`)."""
+    def one(ch):
+        if ch == "'":
+            return "'\\''"
+        if ch == "\\":
+            return "'\\\\'"
+        if 32 <= ord(ch) < 127:
+            return f"'{ch}'"
+        return "'\\u{%x}'" % ord(ch)
+    return "[" + ", ".join(one(c) for c in s) + "]"
+
+
 def lbool(b):
     return "true" if b else "false"
 
@@ -451,7 +464,7 @@ def lopt_nat(x):
 
 
 def lopt_str(x):
-    return "none" if x is None else f"(some {lstr(x)}.toList)"
+    return "none" if x is None else f"(some {lchars(x)})"
 
 
 FLAGS = ["isClass", "routine", "instantiable", "abstract", "stdColl", "isNone", "inspectIsClass", "dictInMro", "hasTotal",
@@ -482,8 +495,8 @@ def render(f):
         rl.append(
             f"  -- {i}\n"
             f"  {{ name := {lstr(r['name'])}, origin := {lopt_nat(r['origin'])}, sub := [{', '.join(str(x) for x in r['sub'])}],\n"
-            f"    str := {lstr(r['str'])}.toList, qualname := {lopt_str(r['qualname'])}, nm := {lopt_str(r['nm'])}, "
-            f"pfx := {lstr(r['prefix'])}.toList,\n"
+            f"    str := {lchars(r['str'])}, qualname := {lopt_str(r['qualname'])}, nm := {lopt_str(r['nm'])}, "
+            f"pfx := {lchars(r['prefix'])},\n"
             f"    {fl} }}")
     lines.append(",\n".join(rl) + "]")
     lines.append("")
